@@ -629,6 +629,7 @@ Inductive uop :=
 | UShutdown (d : Z) | URestore (d : Z) | UFailAt (d t : Z)
 | UBlock (d : Z) (b : bool)
 | UAdjust (d z : Z)
+| UOffset (d z : Z)                  (* device.offset_next_cycle_time(z), called from outside *)
 | UAddRes (n a : Z)
 | UCreateWO (m t g : Z).
 
@@ -652,6 +653,7 @@ Definition run_uop (fuel : nat) (nw : Z) (w : fw) (o : uop) : fw :=
       let w1 := updd w d (t_budget (Z.max (b + z) (d_produced x))) in
       if was_empty then sched_pass nw 0 w1 d else w1
     end
+  | UOffset d z => updd w d (t_add_offset z)
   | UAddRes n a => rm_call w (add_resources nw n a)
   | UCreateWO m t g => create_wo nw m t g w
   end.
